@@ -104,6 +104,18 @@ def parseOp : List String → Option Op
   | ["putObjectTagging", b, k, t] => do pure (.putObjectTagging (← Bytes.ofHex b) (← Bytes.ofHex k) (← parseKVs t))
   | ["getObjectTagging", b, k] => do pure (.getObjectTagging (← Bytes.ofHex b) (← Bytes.ofHex k))
   | ["deleteObjectTagging", b, k] => do pure (.deleteObjectTagging (← Bytes.ofHex b) (← Bytes.ofHex k))
+  | ["listVersions", b] => do pure (.listVersions (← Bytes.ofHex b))
+  | ["putLockConfig", b, en, mode, days] => do
+    let m ← (if mode = "~" then some none else if mode = "G" then some (some LockMode.governance) else if mode = "C" then some (some LockMode.compliance) else none)
+    pure (.putLockConfig (← Bytes.ofHex b) (en = "1") m (← days.toNat?))
+  | ["getLockConfig", b] => do pure (.getLockConfig (← Bytes.ofHex b))
+  | ["putRetention", b, k, vid, r, bypass] => do
+    match ← parseRetention r with
+    | some r => pure (.putRetention (← Bytes.ofHex b) (← Bytes.ofHex k) (← Bytes.ofHex vid) r (bypass = "1"))
+    | none => none
+  | ["getRetention", b, k, vid] => do pure (.getRetention (← Bytes.ofHex b) (← Bytes.ofHex k) (← Bytes.ofHex vid))
+  | ["putLegalHold", b, k, vid, on] => do pure (.putLegalHold (← Bytes.ofHex b) (← Bytes.ofHex k) (← Bytes.ofHex vid) (on = "1"))
+  | ["getLegalHold", b, k, vid] => do pure (.getLegalHold (← Bytes.ofHex b) (← Bytes.ofHex k) (← Bytes.ofHex vid))
   | _ => none
 
 def parseCaller (s : String) : Option Caller :=
